@@ -236,4 +236,7 @@ def check(ctx):
     ctx.ob("R1", f"{ASYNC_H}.handle::inert", all(isinstance(s, ast.Pass) for s in body), f"{ASYNC_H}.handle is no longer inert: records could be decoded twice", h.loc)
     consume_pairing(ctx, repo, "R3")
     ctx.assume("record geometry (4-byte position+word records, count byte) is decided under C04")
+    ctx.rule("R7", "every partial update reaches its handler: the unclaimed-datagram discard of the receive queue can only remove the datagram it marked - not a retransmitted, byte-identical STATP that follows it (C07's queue model borrowed)")
+    from .c07 import queue_model
+    queue_model(ctx.borrowed("R7", "C07", key_prefix="AsyncPeekableQueue::mark"), repo, "R3")
     ctx.note("Not decided: interleaving of partial updates with refreshes; an observer raising during the sync apply loop skips the for-else clear (documented residual).")
